@@ -29,6 +29,7 @@
 #include <stdio.h>
 #include <stdint.h>
 #include <stdbool.h>
+#include <limits.h>
 #include <string.h>
 #include <sys/stat.h>
 #include <sys/types.h>
@@ -326,6 +327,13 @@ bool ZCK_PUBLIC_API zck_set_ioption(zckCtx *zck, zck_ioption option, ssize_t val
         VALIDATE_READ_BOOL(zck);
         if(value < 0) {
             set_error(zck, "Header hash type can't be less than zero: %lli",
+                      (long long) value);
+            return false;
+        }
+        /* The requested type is kept in an int: a value that doesn't fit must
+         * not be cut down to one that matches some other type */
+        if(value > INT_MAX) {
+            set_error(zck, "Header hash type is out of range: %lli",
                       (long long) value);
             return false;
         }
